@@ -522,3 +522,68 @@ Section Ops.
     | None => None
     end.
 End Ops.
+
+(* ---------- a finer model of SearchParams.params: the slice holds POINTERS to pairs ---------- *)
+(* Above, spobj.s_params is a VALUE list.  In Go it is `[]*NameValuePair`: Set writes `nvp.Value = value`
+   and the callback of Iterate writes `pair.Name`, `pair.Value` IN PLACE through these pointers, and
+   SearchParams.Clone allocates fresh pairs.  This section models the slice as a list of locations into
+   a store of pairs, with the mutators at pointer level; HeapProofs (Section PairProofs) shows that as
+   long as no pair is reachable from two slices (and from one slice twice) each pointer-level mutator is
+   the value-level function used above, that no other slice changes, and that the deep copy of Clone,
+   init and Append keep it so - which is what licenses the value list in spobj.  The shallow copy
+   `copy(sp.params, s.params)` (a seeded defect) is the buggy variant p_clone_shallow. *)
+Definition pair_t := (str * str)%type.
+Definition pstore := store pair_t.
+Definition plist := list loc.
+
+(* *k (a dangling pointer reads as the zero pair; never the case under pwf) *)
+Definition pget (s : pstore) (k : loc) : pair_t := match rd s k with Some p => p | None => ([], []) end.
+(* the value list a slice stands for *)
+Definition pvals (s : pstore) (l : plist) : list pair_t := map (pget s) l.
+
+(* init / Clone: one fresh pair per value *)
+Fixpoint p_new (s : pstore) (vals : list pair_t) : pstore * plist :=
+  match vals with
+  | [] => (s, [])
+  | v :: rest => let '(s', l) := p_new (alloc s v) rest in (s', next s :: l)
+  end.
+Definition p_clone (s : pstore) (l : plist) : pstore * plist := p_new s (pvals s l).
+Definition p_clone_shallow (s : pstore) (l : plist) : pstore * plist := (s, l).
+
+Definition p_append (s : pstore) (l : plist) (n v : str) : pstore * plist := (alloc s (n, v), l ++ [next s]).
+Definition p_delete (s : pstore) (l : plist) (n : str) : pstore * plist :=
+  (s, filter (fun k => negb (str_eqb (fst (pget s k)) n)) l).
+Fixpoint p_set_aux (s : pstore) (l : plist) (n v : str) (isSet : bool) : pstore * plist * bool :=
+  match l with
+  | [] => (s, [], isSet)
+  | k :: l' =>
+      if str_eqb (fst (pget s k)) n then
+        if isSet then p_set_aux s l' n v true                          (* s.params[i] = nil; continue *)
+        else let '(s2, r, b) := p_set_aux (upd s k (Some (fst (pget s k), v))) l' n v true in   (* nvp.Value = value *)
+             (s2, k :: r, b)
+      else let '(s2, r, b) := p_set_aux s l' n v isSet in (s2, k :: r, b)
+  end.
+Definition p_set (s : pstore) (l : plist) (n v : str) : pstore * plist :=
+  let '(s1, r, isSet) := p_set_aux s l n v false in
+  if isSet then (s1, r) else (alloc s1 (n, v), r ++ [next s1]).
+Definition p_sort (s : pstore) (l : plist) : pstore * plist :=
+  (s, sort_stable (fun a b => str_ltb (fst (pget s a)) (fst (pget s b))) l).
+Definition p_sort_abs (s : pstore) (l : plist) : pstore * plist :=
+  (s, sort_stable (fun a b => str_ltb (fst (pget s a) ++ snd (pget s a)) (fst (pget s b) ++ snd (pget s b))) l).
+Definition p_iterate (g : pair_t -> pair_t) (s : pstore) (l : plist) : pstore * plist :=
+  (fold_left (fun s k => upd s k (Some (g (pget s k)))) l s, l).
+
+Definition p_mutate (m : spmut) (s : pstore) (l : plist) : pstore * plist :=
+  match m with
+  | MAppend n v => p_append s l n v
+  | MDelete n => p_delete s l n
+  | MSet n v => p_set s l n v
+  | MSort => p_sort s l
+  | MSortAbs => p_sort_abs s l
+  | MIterate g => p_iterate g s l
+  end.
+
+(* a slice is well-formed: its pointers are live and pairwise distinct *)
+Definition pwf (s : pstore) (l : plist) : Prop := NoDup l /\ forall k, In k l -> rd s k <> None.
+Definition swf (s : pstore) : Prop := forall k, (next s <= k)%nat -> rd s k = None.
+Definition pdisjoint (l1 l2 : plist) : Prop := forall k, In k l1 -> ~ In k l2.
